@@ -11,6 +11,10 @@ CLAIMED = {
    note=NOTE + " CPython's tokenizer and ast.literal_eval on one atom are not modelled (observed / oracle table); soundness (rejection of every non-literal) is checked by the correspondence and the near-miss stream, not proved.", design="5/C02"),
  'C03': dict(category='translation_validation', text="Executable Gallina model of the statement parser (bindings, macro form, blocks, four import forms, includes, selector adjacency re-check) compared with the implementation on generated statement lists rendered in two independent layouts plus a malformed stream (incl. continuation-aligned scoped names); independent predicate: both layouts yield exactly the generated statements. Proved in Coq: accepted scoped names are spelled by adjacent tokens and match the pattern (never repaired), a detached separator is never accepted, key splitting inverts joining. The full statement round-trip over all layouts is not proved, hence translation validation.",
    note=NOTE + " CPython's tokenizer is not modelled.", design="5/C03"),
+ 'C14': dict(category='translation_validation', text="Executable Gallina model of parse_config_file / include handling (location-major, reader-minor resolution, absolute names, IOError, returned include/import tree) and of parse_config_files_and_bindings, compared with the implementation on generated file universes (1-4 locations x 1-3 readers, copies of one name with different contents, missing files, conflicting bindings around includes), the entry points being called with their defaults omitted; independent oracle: a fresh gin parsing the harness's own textual flattening, plus which physical file each instrumented reader opened.",
+   note=NOTE + " os.path / open / importlib are not modelled (in-memory readers + per-case temp dir). The in-place-inclusion theorem over the model is not proved yet.", design="5/C14"),
+ 'C15': dict(category='translation_validation', text="Executable Gallina model of _should_skip, the parser delegate's placeholder rule and the three skip sites, compared with the implementation on generated texts x every form of skip_unknown; independent oracle: a statement-level reference interpreter written from the property text; placeholders are additionally required to raise on use and at finalize.",
+   note=NOTE + " Static registration only; import side effects are modelled as a fixed set of importable modules.", design="5/C15"),
  'C16': dict(category='translation_validation', text="Executable Gallina model of the streaming statement consumer (parse_config, includes through readers/locations, try_with_location chain, provenance) compared with the implementation on generated configs with one injected fault (14 kinds, any include depth / block member); independent oracle: a second fresh gin given only the statements preceding the fault must end in the same store and provenance; error class and (file, line) chain checked against the generator's own line bookkeeping. One known finding (F11, block members before a syntactic fault) is recorded.",
    note=NOTE + " Tokenizer, ast.literal_eval per atom and the file system are not modelled. No Coq theorem about the consumer fold is proved yet.", design="5/C16"),
  'C08': dict(text="Coq proof (for every history of set/pop/clear/copy and every query, over unbounded name sets) that the suffix-tree model refines a finite map, that matching = exact-match-else-all-suffix-matches, and that the reported minimal selector resolves back and no shorter suffix does; model tied to /repo by a differential run of generated histories plus an independent brute-force statement of the property evaluated on the implementation.",
